@@ -5,5 +5,15 @@ use vstd::prelude::*;
 //@ enditem
 //@ item src/error.rs / type Result props=C01
 //@ enditem
+//@ region error_from_spec props=C15
+impl vstd::std_specs::convert::FromSpecImpl<std::io::Error> for Error {
+    open spec fn obeys_from_spec() -> bool { true }
+    open spec fn from_spec(value: std::io::Error) -> Error { Error::IoError(value) }
+}
+//@ endregion
+//@ open src/error.rs / impl From<std::io::Error> for Error
+//@ item src/error.rs / impl From<std::io::Error> for Error / fn from props=C15
+//@ enditem
+//@ close
 } // mod error
 pub use crate::error::{Error, Result};
